@@ -266,6 +266,10 @@ class BaseFileLock(abc.ABC):
             self._lock(fd, block)
         except (IOError, OSError):
             os.close(fd)
+        except BaseException:
+            # e.g. KeyboardInterrupt while waiting: don't leak the descriptor
+            os.close(fd)
+            raise
         else:
             self._lock_file_fd = fd
 
